@@ -443,6 +443,47 @@ impl<'a> TGen<'a> {
             self.max_derefs = self.max_derefs.max(p.derefs);
             return (p.guards, p.e);
         }
+        if depth > 0 && t.bool_p(1, 8) {
+            // an attribute of a *compound* entity expression: `(if c then p1 else p2).k` where p1, p2 are access paths of
+            // the same entity type with (possibly) different dereference depths; the level of the target is the deeper one
+            let mut sites: Vec<(String, String, bool)> = Vec::new();
+            let mut seen = BTreeSet::new();
+            for p in &self.paths {
+                if let RType::Ent(n) = &p.ty {
+                    if seen.insert(n.clone()) {
+                        if let Some(et) = self.env.s.et(n) {
+                            for (k, (kty, req)) in &et.attrs {
+                                if kty == ty {
+                                    sites.push((n.clone(), k.clone(), *req));
+                                }
+                            }
+                        }
+                    }
+                }
+            }
+            if !sites.is_empty() {
+                let (n, k, req) = sites[t.upto(sites.len())].clone();
+                let cands = self.paths_of(&RType::Ent(n));
+                let p1 = self.paths[cands[t.upto(cands.len())]].clone();
+                let p2 = self.paths[cands[t.upto(cands.len())]].clone();
+                let c = self.boolean(t, 0);
+                let target = match t.upto(4) {
+                    0 => E::GetAttr(b(E::Rec(vec![("f".to_string(), E::If(b(c), b(p1.e), b(p2.e)))])), "f".to_string()),
+                    1 => E::If(b(c), b(E::GetAttr(b(E::Rec(vec![("f".to_string(), p1.e)])), "f".to_string())), b(p2.e)),
+                    _ => E::If(b(c), b(p1.e), b(p2.e)),
+                };
+                let mut g = p1.guards;
+                g.extend(p2.guards);
+                if !g.is_empty() || !req {
+                    self.uses_optional = true;
+                }
+                if !req {
+                    g.push(E::Has(b(target.clone()), vec![k.clone()]));
+                }
+                self.max_derefs = self.max_derefs.max(p1.derefs.max(p2.derefs) + 1);
+                return (g, E::GetAttr(b(target), k));
+            }
+        }
         if depth > 0 && t.bool_p(1, 12) {
             // a record literal that is projected right away: `{f: e}.f` (hides a dereference from a syntactic level count)
             let (g, e) = self.term(t, ty, depth - 1);
